@@ -113,6 +113,7 @@ def main():
         pkg = package_of(tdir)
         demo_dst = os.path.join(WT, tdir, tname + '.rs')
         conf = {'demo_installed_as': f'{tdir}/{tname}.rs', 'demo_package': pkg}
+        os.makedirs(os.path.dirname(demo_dst), exist_ok=True)
         shutil.copy(os.path.join(d, 'demo.rs'), demo_dst)
         rc, out = sh(['cargo', 'test', '--offline', '-j', jobs, '-p', pkg, '--test', tname])
         conf['demo_on_unmodified_tree'] = 'passes' if rc == 0 else 'FAILS'
